@@ -9,6 +9,7 @@ Regenerates lean/Pyrealb/Gen/DateRules.lean from the working tree of the reposit
 The Lean theorems about format cells are `decide +kernel` over these tables, i.e. re-proved on every run.
 """
 import ast
+import copy
 import json
 import os
 
@@ -78,6 +79,87 @@ def _find_func(tree, cls, name):
     _err("%s.%s not found" % (cls, name))
 
 
+def _const_strs(n):
+    """elements of a list / tuple / set display of string constants, else None"""
+    if isinstance(n, (ast.List, ast.Tuple, ast.Set)) and n.elts and \
+            all(isinstance(e, ast.Constant) and isinstance(e.value, str) for e in n.elts):
+        return [e.value for e in n.elts]
+    return None
+
+
+class _Norm(ast.NodeTransformer):
+    """brings behaviour-preserving spellings to one form before the source text is lifted:
+       * a list display that is only iterated (`for x in [..]`, comprehension) or tested (`x in [..]`) = the tuple display;
+       * a local zero-argument helper `def h(): return e` of the function = its expression (`h()` -> `e`, a bare `h`
+         stored as a dictionary value -> `lambda: e`)."""
+
+    def __init__(self, helpers):
+        self.helpers = helpers
+
+    @staticmethod
+    def _tup(n):
+        if isinstance(n, ast.List) and isinstance(n.ctx, ast.Load):
+            return ast.copy_location(ast.Tuple(elts=n.elts, ctx=ast.Load()), n)
+        return n
+
+    def visit_comprehension(self, node):
+        self.generic_visit(node)
+        node.iter = self._tup(node.iter)
+        return node
+
+    def visit_For(self, node):
+        self.generic_visit(node)
+        node.iter = self._tup(node.iter)
+        return node
+
+    def visit_Compare(self, node):
+        self.generic_visit(node)
+        node.comparators = [self._tup(c) if isinstance(op, (ast.In, ast.NotIn)) else c
+                            for op, c in zip(node.ops, node.comparators)]
+        return node
+
+    def visit_Call(self, node):
+        self.generic_visit(node)
+        if isinstance(node.func, ast.Name) and node.func.id in self.helpers and not node.args and not node.keywords:
+            return copy.deepcopy(self.helpers[node.func.id])
+        return node
+
+    def visit_Dict(self, node):
+        self.generic_visit(node)
+        vals = []
+        for v in node.values:
+            if isinstance(v, ast.Name) and v.id in self.helpers:
+                v = ast.copy_location(ast.Lambda(args=ast.arguments(posonlyargs=[], args=[], kwonlyargs=[], kw_defaults=[],
+                                                                       defaults=[]),
+                                                 body=copy.deepcopy(self.helpers[v.id])), v)
+            vals.append(v)
+        node.values = vals
+        return node
+
+
+def _normalise(fn):
+    """a normalised deep copy of the function `fn` (see _Norm); local zero-argument single-return helpers are inlined
+    and removed"""
+    fn = copy.deepcopy(fn)
+    helpers = {}
+    body = []
+    for st in fn.body:
+        if isinstance(st, ast.FunctionDef) and not (st.args.args or st.args.posonlyargs or st.args.kwonlyargs
+                                                     or st.args.vararg or st.args.kwarg) and not st.decorator_list:
+            b = [x for x in st.body if not (isinstance(x, ast.Expr) and isinstance(x.value, ast.Constant))]
+            if len(b) == 1 and isinstance(b[0], ast.Return) and b[0].value is not None:
+                helpers[st.name] = b[0].value
+                continue
+        body.append(st)
+    fn.body = body
+    for _ in range(3):      # helpers may use each other
+        norm = _Norm(helpers)
+        helpers = {k: norm.visit(copy.deepcopy(v)) for k, v in helpers.items()}
+    fn = _Norm(helpers).visit(fn)
+    ast.fix_missing_locations(fn)
+    return fn
+
+
 def lift_python():
     src = os.path.join(core.REPO, "src", "pyrealb")
     try:
@@ -85,7 +167,7 @@ def lift_python():
         cons = ast.parse(open(os.path.join(src, "Constituent.py"), encoding="utf-8").read())
     except (OSError, SyntaxError) as e:
         _err("cannot parse the Python source: %s" % e)
-    df = _find_func(term, "Terminal", "dateFormat")
+    df = _normalise(_find_func(term, "Terminal", "dateFormat"))
     res = {}
     # fmtRE = re.compile(r"...")
     for n in ast.walk(df):
@@ -107,8 +189,8 @@ def lift_python():
     # list literals of field names and string constants compared with / assigned to timeFields
     lists = []
     for n in ast.walk(df):
-        if isinstance(n, ast.List) and n.elts and all(isinstance(e, ast.Constant) and isinstance(e.value, str) for e in n.elts):
-            lists.append([e.value for e in n.elts])
+        if _const_strs(n) is not None:
+            lists.append(_const_strs(n))
     date_l = [l for l in lists if "year" in l]
     time_l = [l for l in lists if "hour" in l]
     if len(date_l) != 1 or len(time_l) != 1:
@@ -153,8 +235,8 @@ def lift_python():
     ak = None
     for n in ast.walk(do):
         if isinstance(n, ast.Assign) and isinstance(n.targets[0], ast.Name) and n.targets[0].id == "allowedKeys" \
-                and isinstance(n.value, ast.List):
-            vals = [e.value for e in n.value.elts if isinstance(e, ast.Constant)]
+                and _const_strs(n.value) is not None:
+            vals = _const_strs(n.value)
             if "rtime" in vals:
                 ak = vals
     if ak is None:
